@@ -260,7 +260,7 @@ func runCase(c dlCase) (fail *vt.Fail, soft string) {
 				continue
 			}
 			if b, err := os.ReadFile(pf); err == nil {
-				if tskit.Alive(strings.TrimSpace(string(b))) {
+				if tskit.StillAlive(strings.TrimSpace(string(b))) {
 					var pid int
 					fmt.Sscan(string(b), &pid)
 					if pid > 1 {
